@@ -46,7 +46,9 @@ func (r *RingBuffer) Close() {
 		r.buffer[i] = nil
 	}
 
+	r.verifEvent("close", nil)
 	r.mutex.Unlock()
+	verifYield("close_unlocked")
 	r.cond.Broadcast()
 }
 
@@ -59,6 +61,7 @@ func (r *RingBuffer) Reset() {
 	r.writeIndex = 0
 	r.readIndex = 0
 	r.closed = false
+	r.verifEvent("reset", nil)
 }
 
 // Push pushes data at the end of the buffer.
@@ -66,6 +69,7 @@ func (r *RingBuffer) Push(data any) bool {
 	r.mutex.Lock()
 
 	if r.buffer[r.writeIndex] != nil {
+		r.verifEvent("push_full", data)
 		r.mutex.Unlock()
 		return false
 	}
@@ -73,7 +77,9 @@ func (r *RingBuffer) Push(data any) bool {
 	r.buffer[r.writeIndex] = data
 	r.writeIndex = (r.writeIndex + 1) % r.size
 
+	r.verifEvent("push_ok", data)
 	r.mutex.Unlock()
+	verifYield("push_unlocked")
 
 	r.cond.Broadcast()
 
@@ -90,15 +96,18 @@ func (r *RingBuffer) Pull() (any, bool) {
 		if data != nil {
 			r.buffer[r.readIndex] = nil
 			r.readIndex = (r.readIndex + 1) % r.size
+			r.verifEvent("pull_got", data)
 			r.mutex.Unlock()
 			return data, true
 		}
 
 		if r.closed {
+			r.verifEvent("pull_closed", nil)
 			r.mutex.Unlock()
 			return nil, false
 		}
 
+		r.verifEvent("pull_wait", nil)
 		r.cond.Wait()
 
 		r.mutex.Unlock()
